@@ -36,7 +36,7 @@ ASSUMPTIONS = [
 ]
 PROFILE = {
     "quick": dict(examples=2000, shards=16, budget_s=80),
-    "thorough": dict(examples=9000, shards=16, budget_s=1100),
+    "thorough": dict(examples=18000, shards=16, budget_s=1100),
 }
 
 # R2 (restriction) and R3 (permutation) lists, fixed from the code
